@@ -252,6 +252,9 @@ class AbstractAst:
             try:
                 var_module = self.modules[var_type]
                 class_ = getattr(var_module, var_type)
+                if not isinstance(class_, type):
+                    # only a class is instantiated: calling a function found under that name would run it
+                    raise RTAMTException('The type {} is not a class.'.format(var_type))
                 var = class_()
             except KeyError:
                 raise RTAMTException('The type {} does not seem to be imported.'.format(var_type))
